@@ -172,10 +172,10 @@ Definition propfail_C18S (cs : list scan_case) : list nat :=
                                                  | Some gi => check_C18_group (mk_ctx (sc_snap c) gi) (og_calls g) (og_state g)
                                                  | None => false end) (sc_obs c))) cs 0.
 Definition mismatches_C20 := mismG all_groups st_lock false pi_none.
-(* C20 on an observed scan: no panic (4); the main loop, started on a world whose first run returns an error, returned it and
+(* C20 on an observed scan: no panic (4), no hang (6: still running long after every wait it can legitimately take); the main loop, started on a world whose first run returns an error, returned it and
    did not tick on (5); a scan that returned nil processed every configured group *)
 Definition propfail_C20 (cs : list scan_case) : list nat :=
-  indices_where (fun c => (sc_out c =? 4) || (sc_out c =? 5)
+  indices_where (fun c => (sc_out c =? 4) || (sc_out c =? 5) || (sc_out c =? 6)
                           || ((sc_out c =? 0) && negb (Nat.eqb (length (sc_obs c)) (length (s_groups (sc_snap c)))))) cs 0.
 
 (* cases whose views are not well-formed (duplicate node names): expected none; reported as a generator error *)
